@@ -496,10 +496,11 @@ func init() {
 		ID:    "C34",
 		Title: "Generic-contract methods on basic and container types agree with Go operators",
 		Explanation: "Decided, for every one of the ~220 closures installed by addBasicTypeMethodsCTI: G2 the method name -> operator table given by the property itself (Equal ==, Less <, Add + ... AndNot &^, Lsh <<, Rsh >>, Neg -x, Not !x / ^x, Cmp three-way shape, Real/Imag/Len builtins): the closure applies exactly that Go operator; G3 operands in order (a op b, the receiver placeholder unused); G4 operand and result types are the kind's own type (bool for Equal/Less, int for Cmp); " +
-			"G5 per kind, the set of methods given a body equals the set declared by go/types makeBasicMethods for that kind; U sibling uniformity across kinds in cti_basic_method.go and cti_method.go. The oracle is Go's own operator on the labelled type. " +
+			"G5 per kind, the set of methods given a body equals the set declared by go/types makeBasicMethods for that kind; G6 every container method registered with n operands is implemented by a function that uses each of its n operands and none beyond; U sibling uniformity across kinds in cti_basic_method.go and cti_method.go. The oracle is Go's own operator on the labelled type. " +
 			"Not decided: container methods implemented through reflect beyond uniformity (Index, Append, Copy ... are reflect calls trusted to equal the builtins).",
 		Assumptions: []string{"Go operator semantics on basic types", "reflect container operations equal the corresponding builtins"},
 		Rules: []func(*Ctx){ruleContractMethods, func(c *Ctx) {
+			ruleCtiArity(c, "G6-container-arity")
 			ruleUniformity(c, "xreflect", []string{"cti_basic_method.go", "cti_method.go"}, "U-uniform")
 			c.Floor("G2-method-operator", 130)
 			c.Floor("G4-method-types", 130)
@@ -658,6 +659,34 @@ func init() {
 			{Name: "go-args-evaluated-in-goroutine", File: "fast/statement.go", Old: "\t\t\tfunv.Call(argv)\n\t\t}()", New: "\t\t\tfunv.Call(append(argv[:0:0], exprfun(env2)))\n\t\t}()", Canary: true},
 			{Name: "gls-delete-unlocked", File: "fast/compile.go", Old: "\tg.lock.Lock()\n\tdelete(g.gls, goid)\n\tg.lock.Unlock()\n", New: "\tdelete(g.gls, goid)\n", Canary: true},
 			{Name: "send-int16-uses-other-channel-type", File: "fast/channel.go", Old: "(chan<- int16)", New: "(chan<- int32)", Nth: 1},
+		},
+	})
+}
+
+func init() {
+	register(&PropDef{
+		ID:    "C05",
+		Title: "Statement control flow is executed exactly as in Go",
+		Explanation: "Decided: S1 every one of the ~3 800 statement closures of package fast returns Code[IP] of the environment it returns after exactly one advance of IP (or Code[t] after IP = t) on every path — an IP that is not advanced, or a statement taken from another frame than the one returned, is the generic control-flow bug; " +
+			"J1 in jumpOut and every other depth-specialised jump the frame whose IP is set and whose code is indexed is the one the arm names; J2 break/continue/goto stop at the enclosing function, count the frames to leave after each level and pass the count to jumpOut (D3: the compiler-chain walk advances one link per iteration); " +
+			"J3 every late-bound jump target (jump.Cond/Post/Break/..., LoopInfo.Break/Continue) is assigned a code position on every path to the end of its compile function; J4 Comp.Stmt has a case for every statement node of go/ast. " +
+			"Not decided: the sequence of executed statements as such (switch dispatch optimisations, fallthrough, range and select semantics).",
+		Assumptions: []string{"the executor runs the statement returned by the previous one (C13 rules)"},
+		Rules: []func(*Ctx){func(c *Ctx) {
+			ruleStmtProtocol(c, "fast", nil, "S1-stmt-protocol")
+			ruleJumpDepth(c, "J1-jump-depth")
+			ruleBranchBoundaries(c, "J2-branch-boundaries")
+			ruleChainStride(c, []string{"fast"}, "D3-stride")
+			ruleLateBoundTargets(c, "J3-late-bound-targets")
+			ruleStmtCoverage(c, "fast.Comp.Stmt", "Stmt", "J4-stmt-coverage")
+			c.Floor("S1-stmt-protocol", 2300)
+		}},
+		Mutants: []Mutant{
+			{Name: "jumpout-depth1-stays-in-frame", File: "fast/statement.go", Old: "\t\tstmt = func(env *Env) (Stmt, *Env) {\n\t\t\tenv = env.Outer\n\t\t\tip := *ip\n", New: "\t\tstmt = func(env *Env) (Stmt, *Env) {\n\t\t\tip := *ip\n", Canary: true},
+			{Name: "for-break-target-unset", File: "fast/statement.go", Old: "\tjump.Break = c.Code.Len()\n\n\tc = c.popEnvIfLocalBinds(initLocals, &initBinds, node.Init)\n}\n\n// Go compiles", New: "\n\tc = c.popEnvIfLocalBinds(initLocals, &initBinds, node.Init)\n}\n\n// Go compiles", Canary: true},
+			{Name: "break-crosses-function", File: "fast/statement.go", Old: "\tfor o := c; o != nil && o.Func == nil; o = o.Outer {\n\t\tif o.Loop != nil && o.Loop.Break != nil {", New: "\tfor o := c; o != nil; o = o.Outer {\n\t\tif o.Loop != nil && o.Loop.Break != nil {"},
+			{Name: "continue-upcost-before-check", File: "fast/statement.go", Old: "\tfor o := c; o != nil && o.Func == nil; o = o.Outer {\n\t\tif o.Loop != nil && o.Loop.Continue != nil {", New: "\tfor o := c; o != nil && o.Func == nil; o = o.Outer {\n\t\tupn += o.UpCost\n\t\tif o.Loop != nil && o.Loop.Continue != nil {"},
+			{Name: "if-statement-ip-not-advanced", File: "fast/statement.go", Old: "ip = env.IP + 1\n\t\t\t\t// Debugf(\"for: condition = true", New: "ip = env.IP\n\t\t\t\t// Debugf(\"for: condition = true"},
 		},
 	})
 }
